@@ -41,6 +41,9 @@ SB := Str.bear
 AB := Arr.bear
 OB := {a: 1}
 ff := {|x| x}
+NB := Nil.bear({unknown?: true})
+RB := Range.bear({})
+MB := Map.bear({})
 `
 
 func pool(thorough bool) []val {
@@ -51,6 +54,8 @@ func pool(thorough bool) []val {
 		{Src: "9223372036854775807", Fam: "int"},
 		{Src: "0.0", Fam: "float"}, {Src: "1.0", Fam: "float"}, {Src: "1.5", Fam: "float"}, {Src: "(-1.5)", Fam: "float"}, {Src: "2.5", Fam: "float"},
 		{Src: "FB.new(1.5)", Fam: "float", Desc: true}, {Src: "FB.new(2.5)", Fam: "float", Desc: true},
+		// typed descendants of the remaining built-in types (nil, range, map), two instances of each
+		{Src: "NB.new"}, {Src: "NB.new"}, {Src: "Nil.new"}, {Src: "[NB.new]"}, {Src: "{v: NB.new}"}, {Src: "RB.new(1, 3)"}, {Src: "RB.new(1, 3)"}, {Src: "MB.new(%{1: 2})"}, {Src: "MB.new(%{1: 2})"},
 		// floats that differ by less than any sensible tolerance, tiny magnitudes, results of arithmetic
 		{Src: "(0.1 + 0.2)", Fam: "float"}, {Src: "0.3", Fam: "float"}, {Src: "1.0e-10", Fam: "float"}, {Src: "2.0e-10", Fam: "float"}, {Src: "1.0000000001", Fam: "float"}, {Src: "(1.5 - 1.0e-12)", Fam: "float"},
 		{Src: `"nan".F`, NaN: true},
